@@ -22,6 +22,7 @@ import importlib
 import itertools
 import logging
 import math
+import os
 import time
 from functools import lru_cache
 
@@ -719,8 +720,10 @@ def replay_case(rep):
     return r.fail, classify(spec, env, tuple(rep["split"]), r.fail)
 
 
-def check(ctx, modname, suites, rule, assumptions, notes=()):
+def check(ctx, modname, suites, rule, assumptions, notes=(), worker=None, replayer=None):
     """run all suites, merge, build the Report"""
+    worker = worker or run_item
+    replayer = replayer or replay_case
     from .vloop import HarnessError
     specs = get_specs(modname)
     items = expand(modname, suites, getattr(ctx, "only", None))
@@ -733,12 +736,13 @@ def check(ctx, modname, suites, rule, assumptions, notes=()):
     found = {}
     samples = {}
     secs = 0.0
-    for out in ctx.pmap(run_item, items):
+    for out in ctx.pmap(worker, items):
         for k in tot:
             tot[k] += out[k]
         secs += out["secs"]
-        ps = per_spec.setdefault(out["spec"], dict(runs=0, failing_runs=0))
+        ps = per_spec.setdefault(out["spec"], dict(runs=0, failing_runs=0, secs=0.0))
         ps["runs"] += out["runs"]
+        ps["secs"] += out["secs"]
         ps["failing_runs"] += out["failing_runs"]
         states |= out["states"]
         cur = spaces.get(out["space"])
@@ -761,10 +765,13 @@ def check(ctx, modname, suites, rule, assumptions, notes=()):
         cnt, ck, rp, summ = found[sig]
         # re-run the minimal example twice: identical observation or the harness is at fault
         for _ in range(2):
-            f2, d2 = replay_case(rp)
+            f2, d2 = replayer(rp)
             if f2 is None or (f2.clause, specs[rp["spec"]].site, d2) != sig or f2.observed != rp["observed"]:
                 raise HarnessError("violation %r did not reproduce identically on re-run: %r" % (sig, rp))
         rep.add(Finding(sig[0], sig[1], sig[2], replay=rp, summary=summ, count=cnt, observed=rp["observed"]))
+    if os.environ.get("VF_TIMING"):
+        for k in sorted(per_spec, key=lambda k: -per_spec[k]["secs"])[:int(os.environ["VF_TIMING"])]:
+            print("  timing %-50s runs=%7d secs=%8.1f ms/run=%.2f" % (k, per_spec[k]["runs"], per_spec[k]["secs"], 1e3 * per_spec[k]["secs"] / max(per_spec[k]["runs"], 1)))
     cases = sum(v[1] for v in spaces.values())
     nontrivial = sum(v[2] for v in spaces.values())
     skeys = sorted(samples)
@@ -791,8 +798,184 @@ def check(ctx, modname, suites, rule, assumptions, notes=()):
 
 
 def replay(ctx, rep):
-    f, d = replay_case(rep)
+    f, d = (replay_resume_case if rep.get("mode") == "resume" else replay_case)(rep)
     if f is None:
         return True
     print("  replayed: %s/%s[%s] step=%d observed=%s" % (f.clause, get_specs(rep["module"])[rep["spec"]].site, d, f.step, f.observed))
     return False
+
+
+# ========================================================================================
+# C12: checkpoint / resume (differential: uninterrupted run vs pipelines seeded with start=state)
+# ========================================================================================
+
+class RSpec:
+    """make(sdf, state, fresh) wires the aggregation on a streaming frame (fresh: API default start,
+    else start=state) and returns a reader: () -> list of (state, result), one per emitted batch"""
+
+    def __init__(self, key, site, make):
+        self.key = key
+        self.site = site
+        self.make = make
+        self.rank = 0
+
+
+def with_state(build):
+    """aggregation built with with_state=True: the stream carries (state, result) tuples"""
+    def make(sdf, st, fresh):
+        L = build(sdf, st, fresh).stream.sink_to_list()
+        return lambda: [(e[0], e[1]) for e in L]
+    return make
+
+
+def state_is_result(build):
+    """sum / count / groupby sum / count: the emitted value is the state"""
+    def make(sdf, st, fresh):
+        L = build(sdf, st, fresh).stream.sink_to_list()
+        return lambda: [(e, e) for e in L]
+    return make
+
+
+class _Entry:
+    __slots__ = ("ok", "state", "result", "cstate", "cresult", "exc")
+
+
+def _run_pipeline(spec, env, split, first, state, fresh):
+    """feed batches split[first:] to a fresh pipeline; one _Entry per batch"""
+    from streamz import Stream
+    from streamz.dataframe import DataFrame
+    s = Stream()
+    sdf = DataFrame(s, example=env.example)
+    get = spec.make(sdf, state, fresh)
+    lo = sum(split[:first])
+    out = []
+    seen = 0
+    for n in split[first:]:
+        hi = lo + n
+        e = _Entry()
+        try:
+            s.emit(env.full.iloc[lo:hi])
+            got = get()
+            if len(got) != seen + 1:
+                e.ok, e.exc = False, "emitted %d values" % (len(got) - seen)
+                seen = len(got)
+            else:
+                seen += 1
+                e.ok = True
+                e.state, e.result = got[-1]
+                e.cstate, e.cresult = canon(e.state), canon(e.result)
+                e.exc = None
+        except Exception as x:
+            e.ok, e.exc = False, type(x).__name__
+        out.append(e)
+        lo = hi
+    return out
+
+
+def run_resume_case(spec, env, split):
+    """returns (fail or None, runs, transitions, state hashes, base_exceptions)"""
+    runs = 1
+    try:
+        base = _run_pipeline(spec, env, split, 0, None, True)
+    except Exception as x:
+        return Fail("exception", -1, dict(_exc_desc(x), at="construction")), runs, 0, [], 0
+    trans = len(base)
+    nexc = sum(1 for e in base if not e.ok)
+    states = []
+    hi = 0
+    for k, e in enumerate(base):
+        hi += split[k]
+        if e.ok:
+            states.append(hash((spec.key, env.rowkey(hi), e.cstate)))
+    # the captured state objects must not have been changed by the batches that followed
+    for k, e in enumerate(base[:-1]):
+        if e.ok and canon(e.state) != e.cstate:
+            return (Fail("resumed-state", k, {"cut_after_batch": k, "relation": "captured state object changed while the original pipeline went on",
+                                               "captured": e.cstate[:160], "now": canon(e.state)[:160]}, pos="mutated-after-capture"),
+                    runs, trans, states, nexc)
+    for cut in range(1, len(split)):
+        e0 = base[cut - 1]
+        if not e0.ok:
+            continue
+        for attempt in (1, 2):
+            runs += 1
+            try:
+                res = _run_pipeline(spec, env, split, cut, e0.state, False)
+            except Exception as x:
+                return (Fail("exception", cut, dict(_exc_desc(x), at="construction with start=state", cut_after_batch=cut - 1),
+                             pos="resume-%d" % attempt), runs, trans, states, nexc)
+            trans += len(res)
+            for j, (b, r) in enumerate(zip(base[cut:], res)):
+                k = cut + j
+                tag = "resume-%d" % attempt
+                if b.ok != r.ok or (not b.ok and b.exc != r.exc):
+                    clause = "exception" if not r.ok else "resumed-result"
+                    return (Fail(clause, k, {"cut_after_batch": cut - 1, "uninterrupted": b.exc or "ok", "resumed": r.exc or "ok"}, pos=tag),
+                            runs, trans, states, nexc)
+                if not b.ok:
+                    continue
+                if b.cresult != r.cresult:
+                    return (Fail("resumed-result", k, {"cut_after_batch": cut - 1, "uninterrupted": short(b.result), "resumed": short(r.result)}, pos=tag),
+                            runs, trans, states, nexc)
+                if b.cstate != r.cstate:
+                    return (Fail("resumed-state", k, {"cut_after_batch": cut - 1, "uninterrupted": b.cstate[:160], "resumed": r.cstate[:160]}, pos=tag),
+                            runs, trans, states, nexc)
+    return None, runs, trans, states, nexc
+
+
+def _resume_detail(fail):
+    if fail.step < 0:
+        return "at-construction"
+    return fail.pos or "other"
+
+
+def run_resume_item(item):
+    logging.disable(logging.CRITICAL)
+    modname, key, fam, grid, R, E, chunk_id, tabs = item
+    spec = get_specs(modname)[key]
+    t0 = time.time()
+    out = dict(spec=key, space=(fam, grid, R, chunk_id), E=E, runs=0, transitions=0, cases=0, nontrivial=0,
+               empty_exc=0, states=set(), findings={}, sample=None, failing_runs=0)
+    for table in tabs:
+        rows = rows_of(fam, table)
+        for incs in time_patterns(grid, R):
+            env = Env(fam, table, grid, incs)
+            for split in splits(R, E):
+                fail, runs, trans, st, nexc = run_resume_case(spec, env, split)
+                out["runs"] += runs
+                out["cases"] += 1
+                out["transitions"] += trans
+                out["empty_exc"] += nexc
+                out["states"].update(st)
+                if is_nontrivial(env, split, rows):
+                    out["nontrivial"] += 1
+                if out["sample"] is None and chunk_id == 0 and len(split) >= 3 and fail is None:
+                    out["sample"] = dict(aggregation=key, rows=jrows(rows), split=list(split),
+                                         times=[t - BASE for t in times_of(grid, incs, R)] if grid else None,
+                                         history="uninterrupted run capturing the state after every batch, then for every cut two "
+                                                 "successive fresh pipelines with start=<captured state object> fed the remaining batches",
+                                         pipeline_runs=runs)
+                if fail is not None:
+                    out["failing_runs"] += 1
+                    sig = (fail.clause, spec.site, _resume_detail(fail))
+                    ck = case_key(spec, env, split)
+                    rp = _replay_dict(modname, spec, env, split, fail)
+                    rp["mode"] = "resume"
+                    cur = out["findings"].get(sig)
+                    if cur is None or ck < cur[1]:
+                        n = 1 if cur is None else cur[0] + 1
+                        out["findings"][sig] = [n, ck, rp, _summary(spec, env, split, fail)]
+                    else:
+                        cur[0] += 1
+    out["secs"] = time.time() - t0
+    return out
+
+
+def replay_resume_case(rep):
+    logging.disable(logging.CRITICAL)
+    spec = get_specs(rep["module"])[rep["spec"]]
+    env = Env(rep["family"], tuple(rep["table"]), rep.get("grid"), rep.get("incs"))
+    fail = run_resume_case(spec, env, tuple(rep["split"]))[0]
+    if fail is None:
+        return None, None
+    return fail, _resume_detail(fail)
